@@ -312,4 +312,15 @@ def rule_quantile_multiset(ck):
     c09.rule_order_only(ck)
 
 
-RULES = [rule_updates, rule_equivariance, rule_cells, rule_observation, rule_order_sources, rule_quantile_multiset]
+def rule_own_lookup(ck):
+    """the rate of an event is looked up in each forecast through that forecast's own region: bin indices are never carried from one
+    forecast to another (two forecasts may store the same cells in different orders) - shared C11-D3 (get_rates = data[get_index_of,
+    get_magnitude_index]) and C08-D4 (each forecast of a comparison test is asked for its own target-event rates)"""
+    from . import c11, c08
+    ck.clause('D3 (shared C11-D3 / C08-D4: each forecast locates the events on its own grid)')
+    c11.rule_lookup(ck)
+    c08.rule_public_t(ck)
+    c08.rule_public_w(ck)
+
+
+RULES = [rule_updates, rule_equivariance, rule_cells, rule_observation, rule_order_sources, rule_quantile_multiset, rule_own_lookup]
